@@ -1166,6 +1166,42 @@ def _predicate_of(prog, fi: FuncInfo, depth: int = 0) -> Optional[str]:
     return owners.pop() if len(owners) == 1 else None
 
 
+def _shared_gate_helper(prog, fi: FuncInfo, name_e: ast.AST) -> Optional[str]:
+    """A helper that reads the environment variable *named by one of its parameters* belongs to the predicates iff every
+    reference to it in the code base is a call inside a capability predicate that hands over that predicate's documented
+    variable (what each predicate then answers is decided by its truth table)."""
+    if not (isinstance(name_e, ast.Name) and name_e.id in fi.params()) or assignments_to(fi.node, name_e.id):
+        return None
+    params = [p_ for p_ in fi.params() if p_ not in ("self", "cls")]
+    idx = params.index(name_e.id)
+    users = []
+    for q, g in prog.funcs.items():
+        if q == fi.qual:
+            continue
+        for n in walk_no_nested(g.node):
+            ref = (isinstance(n, ast.Name) and n.id == fi.name) or (isinstance(n, ast.Attribute) and n.attr == fi.name)
+            if not ref:
+                continue
+            call = prog.parent(n)
+            if q not in PREDICATES or not (isinstance(call, ast.Call) and call.func is n):
+                return None
+            arg = call.args[idx] if idx < len(call.args) else next((k.value for k in call.keywords if k.arg == name_e.id), None)
+            try:
+                if arg is None or const_eval(prog, g.module, arg) != PREDICATES[q][1]:
+                    return None
+            except ValueError:
+                return None
+            users.append(q.rsplit(".", 1)[-1])
+    # references outside functions (module level, class bodies) other than imports and the definition itself
+    for m in prog.modules.values():
+        for st in m.tree.body:
+            if isinstance(st, (ast.FunctionDef, ast.ClassDef, ast.Import, ast.ImportFrom)):
+                continue
+            if any(isinstance(x, ast.Name) and x.id == fi.name for x in ast.walk(st)):
+                return None
+    return f"helper called only by {', '.join(sorted(set(users)))}, each with its documented variable" if users else None
+
+
 def _pred_truth_table(ctx, fi: FuncInfo, fieldname: str, envname: str) -> Optional[str]:
     """The predicate interpreted (sa.tabulate, Proxy) over (capability field, value of the environment variable)."""
     import types as _types
@@ -1225,7 +1261,10 @@ def r3_env(ctx) -> None:
             except ValueError:
                 var = None
             owner = _predicate_of(prog, fi)
-            if owner is None:
+            shared = _shared_gate_helper(prog, fi, name_e) if owner is None else None
+            if shared:
+                r.ok("C16.R3", fi.qual, f"reads the variable named by its parameter: {shared}", loc)
+            elif owner is None:
                 r.violation("C16.R3", fi.qual, short(n), f"environment variable {var!r} read outside the capability predicates", loc)
             elif var != PREDICATES[owner][1]:
                 r.violation("C16.R3", fi.qual, short(n), f"predicate reads {var!r}, documented variable is {PREDICATES[owner][1]!r}", loc)
@@ -1255,7 +1294,7 @@ def r3_env(ctx) -> None:
         for q, g in prog.funcs.items():
             if g.name == fi.name and q != pq:
                 r.violation("C16.R3", q, f"def {g.name}", f"override of capability predicate {pq}", g.loc)
-    r.floor("C16.R3", 4)
+    r.floor("C16.R3", 3)   # the two truth tables and at least one environment read
 
 
 def _pred_return_ok(ctx, fi: FuncInfo, rt: ast.Return, fieldname: str, envname: str) -> Optional[str]:
